@@ -662,7 +662,12 @@ class SMCSamples(BaseSamples):
         if n_samples is None:
             n_samples = len(self.x)
         log_w = self.log_weights(beta)
-        w = to_numpy(self.xp.exp(log_w - logsumexp(log_w)))
+        w = np.asarray(
+            to_numpy(self.xp.exp(log_w - logsumexp(log_w))), dtype=np.float64
+        )
+        # Renormalise in double precision: in float32 the rounding error of
+        # large log-weights can exceed the tolerance of Generator.choice.
+        w = w / w.sum()
         idx = rng.choice(len(self.x), size=n_samples, replace=True, p=w)
         return self.__class__(
             x=self.x[idx],
